@@ -28,7 +28,8 @@ INFO_MATCH = ['info.SectionInfo.isAllowedName', 'info.SectionInfo.allowUnnamed',
               'info.ValueInfo.__init__', 'info.ValueInfo.convert']
 MATCHER = ['matcher.BaseMatcher.__init__', 'matcher.BaseMatcher.addValue', 'matcher.BaseMatcher.addSection',
            'matcher.SectionMatcher.__init__', 'matcher.BaseMatcher.createChildMatcher',
-           'matcher.BaseMatcher.finish', 'matcher.BaseMatcher.createValue', 'matcher.SectionMatcher.createValue', 'matcher.SectionValue.__init__',
+           'matcher.BaseMatcher.finish', 'matcher.BaseMatcher.constuct', 'matcher.SectionValue.getSectionDefinition',
+           'matcher.BaseMatcher.createValue', 'matcher.SectionMatcher.createValue', 'matcher.SectionValue.__init__',
            'info.KeyInfo.getdefault', 'info.MultiKeyInfo.getdefault', 'info.SectionInfo.getdefault']
 
 CMDLINE = ['cmdline.ExtendedConfigLoader.__init__', 'cmdline.ExtendedConfigLoader.addOption',
@@ -82,6 +83,7 @@ PROPS = {
                           'loader.BaseLoader.normalizeURL', 'loader.BaseLoader.openResource'],
             'standin': True},
     'C07': {'functions': CFG_ALL + ['substitution.substitute', 'substitution._split', 'info.ValueInfo.convert'] + CMDLINE + LOADER_CFG +
+            [f for f in MATCHER if f.startswith('matcher.')] +
             ['loader.BaseLoader.openResource', 'loader.BaseLoader.loadURL', 'loader.BaseLoader.loadFile', 'loader.BaseLoader._raise_open_error',
              'validator.main'],
             'standin': True},
@@ -98,7 +100,11 @@ PROPS = {
         'bind': ['bind:datatypes'],
         'standin': True,
     },
-    'C10': {'functions': INFO_BUILD + SCHEMA_FNS, 'standin': True},
+    # (names in a schema document are validated by the stock regular-expression datatypes: C10 depends on
+    # "prefix match, then compare with the whole text" and on the languages of the three patterns)
+    'C10': {'functions': INFO_BUILD + SCHEMA_FNS + ['datatypes.RegularExpressionConversion.__call__',
+                                                    'datatypes.BasicKeyConversion.__call__'],
+            'rx': ['rx:datatypes.basic-key', 'rx:datatypes.identifier', 'rx:datatypes.dotted-name'], 'standin': True},
     'C11': {'functions': INFO_BUILD + SCHEMA_FNS + ['schema.SchemaParser.start_schema'], 'standin': True},
     'C12': {'functions': ['info.SectionType.getsectioninfo', 'info.AbstractType.getsubtype',
                           'info.AbstractType.hassubtype', 'info.AbstractType.isabstract',
@@ -118,7 +124,8 @@ PROPS = {
     'C16': {'functions': ['loader.CompositeHandler.__init__', 'loader.CompositeHandler.__call__',
                           'loader.CompositeHandler.__len__', 'matcher.BaseMatcher.__init__',
                           'matcher.SectionMatcher.__init__', 'matcher.BaseMatcher.createChildMatcher',
-                          'matcher.SchemaMatcher.__init__', 'matcher.SchemaMatcher.finish', 'loader.ConfigLoader.loadResource'],
+                          'matcher.SchemaMatcher.__init__', 'matcher.SchemaMatcher.finish', 'matcher.BaseMatcher.finish',
+                          'matcher.BaseMatcher.constuct', 'loader.ConfigLoader.loadResource'],
             'bind': ['bind:handlers'], 'standin': True},
     'C17': {'functions': [CFG + 'start_section', CFG + 'end_section', CFG + 'handle_key_value', 'schemaless.Section.addValue', 'schemaless.Section.__init__',
                           'schemaless.Context.startSection', 'schemaless.Context.endSection',
